@@ -30,9 +30,21 @@ def gmsg(o):
     raise ValueError(k)
 
 
-def ghist(h):
-    kc = core.glist("(%s, %s)" % (B(a), B(b)) for a, b in h["keccak"])
-    rc = core.glist("(%s, %s, %s)" % (B(a), B(b), "Some %s" % B(c) if c else "None") for a, b, c in h["rec"])
+def ghist(h, pre=None):
+    """pre = (hex prefix the source hashes for heartbeats, same for requests): only the table entries the model can look up are shipped"""
+    kec, rec = h["keccak"], h["rec"]
+    if pre is not None:
+        want = set()
+        for o in h["ops"]:
+            if o["k"] == "hb":
+                want.add(pre[0] + o.get("payload", ""))
+            elif o["k"] == "req":
+                want.add(pre[1] + o.get("payload", ""))
+        kec = [(a, b) for a, b in kec if a in want]
+        dg = {b for _, b in kec}
+        rec = [(a, b, c) for a, b, c in rec if a in dg]
+    kc = core.glist("(%s, %s)" % (B(a), B(b)) for a, b in kec)
+    rc = core.glist("(%s, %s, %s)" % (B(a), B(b), "Some %s" % B(c) if c else "None") for a, b, c in rec)
     dh = core.glist("(%s, %s)" % (B(a), ("Some %s" % core.gz(b)) if b != "" else "None") for a, b in h["dechb"])
     dr = core.glist("(%s, %s)" % (B(a), core.gbool(b == "1")) for a, b in h["decreq"])
     ops = core.glist(gmsg(o) for o in h["ops"])
@@ -41,10 +53,10 @@ def ghist(h):
 
 
 def weight(h):
-    return sum(len(a) + len(b) for a, b in h["keccak"]) // 2 + 120 * len(h["rec"]) + sum(len(json.dumps(o)) for o in h["ops"]) // 2
+    return sum(len(a) + len(b) for a, b in h["keccak"]) // 6 + 40 * len(h["rec"]) + sum(len(json.dumps(o)) for o in h["ops"]) // 2
 
 
-def compare_p2p(ctx, rows, name):
+def compare_p2p(ctx, rows, name, pre=None):
     nsh = 14
     idx = sorted(range(len(rows)), key=lambda i: -weight(rows[i]))
     bins = [[] for _ in range(min(nsh, len(rows)))]
@@ -55,7 +67,7 @@ def compare_p2p(ctx, rows, name):
         load[j] += weight(rows[i]) + 200
     bins = [sorted(b) for b in bins if b]
     texts = [HDR + "Definition cases : list p2hist := %s.\nDefinition M := Eval vm_compute in map check_p2hist cases.\nPrint M.\n"
-             % core.glist(ghist(rows[i]) for i in b) for b in bins]
+             % core.glist(ghist(rows[i], pre) for i in b) for b in bins]
     res = core.coq_eval_many(ctx, name, texts, timeout=1500)
     bad, cut = [], 0
     for b, (ok, o) in zip(bins, res):
@@ -105,7 +117,7 @@ def p2p_half(ctx, st):
     nmon = 0
     for h in rows:
         for i, s in enumerate(h["steps"]):
-            for m in s.get("mon", []):
+            for m in (s.get("mon") or []):
                 nmon += 1
                 k = mon_key(m)
                 if k in seen:
@@ -135,7 +147,8 @@ def p2p_half(ctx, st):
             ctx.problem("correspondence", "crypto table miss", "%d messages whose signed pre-image under the extracted prefix was not recorded by the harness "
                         "(the source signs under a prefix the protocol does not use)" % miss)
     # ---- model vs implementation inside Coq
-    bad, cut = compare_p2p(ctx, rows, "cases_C03p")
+    pre = (info["hb_pre_hex"], info["req_pre_hex"]) if ("hb_pre_hex" in info and "req_pre_hex" in info) else None
+    bad, cut = compare_p2p(ctx, rows, "cases_C03p", pre)
     if bad is not None:
         for i, stp in bad[:3]:
             h = rows[i]
@@ -147,6 +160,22 @@ def p2p_half(ctx, st):
         ctx.cov["p2p_histories_validated_against_impl"] = len(rows)
         ctx.cov["p2p_mismatches"] = len(bad)
         ctx.cov["p2p_histories_cut_at_slow_cleanup"] = cut
+    # ---- concurrent callers (race detector in the thorough tier)
+    rc2, out2, trace2 = core.harness_pkg(ctx, "p2p", "^TestVerifC03Conc$", timeout=1800, race=(ctx.tier == "thorough"))
+    conc = [r for r in core.read_jsonl(trace2) if r.get("k") == "conc"]
+    if rc2 != 0 or not conc:
+        if "DATA RACE" in out2:
+            ctx.problem("monitor", "data race between the heartbeat verifier, Cleanup and GetAll", out2[out2.index("DATA RACE"):][:1200], concrete=True,
+                        replay={"test": "TestVerifC03Conc", "race_report": out2[out2.index("DATA RACE"):][:3000]}, key="p2p:race")
+        else:
+            ctx.problem("correspondence", "go harness p2p (concurrent)", out2[-1500:])
+    for c in conc:
+        for m in (c.get("mon") or [])[:3]:
+            k = mon_key(m) + ":concurrent"
+            if k not in seen:
+                seen[k] = 1
+                ctx.problem("monitor", m, "observed under concurrent calls", concrete=True, replay={"test": "TestVerifC03Conc", "seed": ctx.seed, "summary": c}, key=k)
+        ctx.cov["p2p_concurrent"] = {k: v for k, v in c.items() if k != "mon"}
     # ---- coverage
     kinds, res = {}, {}
     for h in rows:
@@ -185,7 +214,7 @@ def obs_monitor(ctx, rows):
     checked = invalid = 0
     reported = 0
     for h in rows:
-        for m in h.get("mon", []):
+        for m in (h.get("mon") or []):
             if m.startswith("C03"):
                 if reported < 3:
                     ctx.problem("monitor", m, "processor harness monitor, history %s" % h["id"], concrete=True,
